@@ -188,6 +188,8 @@ class C09(Spec):
             w.meta["forged_pos"] = pos
             n += 1
         coll = {"type": "Collection", "id": replies, "items": entries}
+        if coll_host != ha and rng.random() < 0.5:
+            del coll["id"]          # a collection that does not say who it is must not inherit the identity of the post that links to it
         w.register_strings(coll)
         w.serve(replies, netgen.ok_json(stamp(coll, w.host(coll_host))))
         key = rng.choice(["replies", "comments"])
